@@ -286,54 +286,93 @@ def run_exchange(ctx, rng, fe, ops, script, jitter=False):
         ctx.event('concurrent-exchange')
 
 
-def check_routes(ctx, rng, fe):
-    """route() before connecting: registered once per connection."""
+ROUTE_POOL = [[C(b'r'), C(b'one')], [C(b'r'), C(b'two')], [C(b's')], [C(b's'), C(b'cmd')], [C(b's'), C(b'cmd'), C(b'run')], [C(b'sx')],
+              [C(b'r')], [C(b't'), C(b'a'), C(b'b')], [C(b't'), C(b'a')]]
+
+
+def check_routes(ctx, rng, fe, variant=0):
+    """route() before connecting: registered once per connection (whatever the declaration order and however the
+    prefixes nest); timestamps keep increasing across reconnections of the same app."""
     res = {}
+    fast = variant % 2 == 1
+    if variant == 0:
+        prefixes = [list(p) for p in ROUTE_POOL[:3]]
+    else:
+        prefixes = [list(p) for p in rng.sample(ROUTE_POOL, rng.randint(2, 7))]
+        if variant % 5 == 4:
+            prefixes.insert(rng.randrange(len(prefixes) + 1), [])       # the root prefix
 
     async def main(S):
         face = RecFace()
         the_app = appv2.NDNApp(face=face) if fe == 'v2' else appv1.NDNApp(face=face, keychain=KeychainDigest())
-        prefixes = [[C(b'r'), C(b'one')], [C(b'r'), C(b'two')], [C(b's')]]
         for p in prefixes:
             if fe == 'v2':
                 the_app.route(p)(lambda n, a, reply, c: None)
             else:
                 the_app.route(p)(lambda n, pr, a: None)
         counts = []
-        for conn in range(2):
+        stamps = []
+        for conn in range(3 if fast else 2):
             fw = Forwarder(face, fe, ['200'], ctx, rng, S)
+            if fast:
+                fw.rng = type('R0', (), {'choice': staticmethod(lambda seq: seq[0]), 'random': staticmethod(lambda: 0.0)})()   # replies without delay
 
             late = [C(b'late'), C(b'c%d' % conn)]
+            n_declared = [len(prefixes)]
 
             async def after():
-                await asyncio.sleep(0.2)
+                if fast:
+                    # everything within one millisecond: the next connection starts in the same clock reading
+                    for _ in range(20000):
+                        await asyncio.sleep(0.00002)      # the library itself waits for the next clock tick between commands
+                        if fw.inflight == 0 and len(fw.commands) >= n_declared[0]:
+                            break
+                else:
+                    await asyncio.sleep(0.2)
                 # a route declared while connected is registered right away, once
                 if fe == 'v2':
                     the_app.route(late)(lambda n, a, reply, c: None)
                 else:
                     the_app.route(late)(lambda n, pr, a: None)
-                await asyncio.sleep(0.3)
+                if fast:
+                    # wait (without letting the clock advance) until the forwarder has answered the late registration
+                    for _ in range(20000):
+                        await asyncio.sleep(0.00002)
+                        if fw.inflight == 0 and any(c['prefix'] == late for c in fw.commands):
+                            break
+                    for _ in range(20):
+                        await asyncio.sleep(0)            # the caller of the late registration consumes the answer; the clock stands still
+                else:
+                    await asyncio.sleep(0.3)
                 the_app.shutdown()
             await the_app.main_loop(after())
             prefixes.append(late)
             counts.append(sorted(tuple(c['prefix'] or ()) for c in fw.commands if c['verb'] == 'register'))
+            stamps.extend(c.get('timestamp') for c in fw.commands)
             res.setdefault('expected_per_conn', []).append(sorted(tuple(p) for p in prefixes))
-            res['problems'] = [p for c in fw.commands for p in c['problems']]
+            res.setdefault('problems', []).extend(p for c in fw.commands for p in c['problems'])
         res['counts'] = counts
-        res['expected'] = sorted(tuple(p) for p in prefixes)
+        res['stamps'] = stamps
 
     S = vtime.run(main)
-    w = {'frontend': fe}
+    w = {'frontend': fe, 'routes': [rc.name_to_uri(p, canonical=True) for p in prefixes], 'same_millisecond': fast}
     if S.result != 'ok':
         ctx.report(f'route-scenario-{S.result}:{fe}', f'{S.error!r}', w)
         return
     for i, cnt in enumerate(res['counts']):
         ctx.event('route-connection')
-        ctx.case(('routes', fe, i))
-        res['expected'] = res['expected_per_conn'][i]
-        if cnt != res['expected']:
-            ctx.report(f'routes-not-registered-once-per-connection:{fe}', f'connection {i}: registered {len(cnt)} prefixes, expected each of {len(res["expected"])} once',
-                       dict(w, got=[[c.hex() for c in n] for n in cnt]))
+        ctx.case(('routes', fe, i, tuple(w['routes']), fast))
+        exp = res['expected_per_conn'][i]
+        if cnt != exp:
+            ctx.report(f'routes-not-registered-once-per-connection:{fe}', f'connection {i}: registered {len(cnt)} prefixes, expected each of {len(exp)} once',
+                       dict(w, got=[rc.name_to_uri(list(n), canonical=True) for n in cnt]))
+    for pr in res.get('problems', []):
+        ctx.report(f'command-malformed:{fe}:{pr}', f'route registration command: {pr}', w)
+    ts = [t for t in res['stamps'] if t is not None]
+    if any(b_ <= a_ for a_, b_ in zip(ts, ts[1:])):
+        ctx.report(f'command-timestamps-not-increasing:{fe}:across-connections', f'timestamps over {len(res["counts"])} connections of one app: {ts}', w)
+    elif fast:
+        ctx.event('reconnect-within-one-millisecond')
     for le in S.sentinel.all():
         ex = le.get('exception')
         ctx.report(f'route-background-error:{fe}:{type(ex).__name__ if ex else "?"}', f'{le.get("repr")}', w)
@@ -416,9 +455,10 @@ def run(ctx):
             script = [rng.choice(REPLIES) for _ in range(k)]
         run_exchange(ctx, rng, fe, ops, script, jitter=(i % 5 == 4))
     for fe in ('v2', 'v1'):
-        check_routes(ctx, rng, fe)
+        for variant in range(ctx.n(12, 400)):
+            check_routes(ctx, rng, fe, variant)
     check_parse_response(ctx, rng)
-    for k in ['exchange', 'concurrent-exchange', 'route-connection', 'parse-response'] + [f'reply-{r}' for r in REPLIES]:
+    for k in ['exchange', 'concurrent-exchange', 'route-connection', 'reconnect-within-one-millisecond', 'parse-response'] + [f'reply-{r}' for r in REPLIES]:
         ctx.need_event(k)
     ctx.assumptions = ['a 200 reply whose signature is bad counts as success in the current front-end (its commands use pass_all) and as failure in the legacy one',
                        'jitter clock: non-decreasing, 0..0.6 ms per reading (a legal wall clock)']
